@@ -823,9 +823,8 @@ def cross_language_histories() -> typing.List[typing.Tuple[dict, dict]]:
         for tpl in ("builtin", "userx"):
             a = event("fan", fan, l1, tpl, "none")
             for ns in ("fan", "same"):
-                for sub in (sorted(NAMESPACES[ns]["deps"]), [leaf(ns)]):
-                    for l2 in LANG_LIST:
-                        out.append((a, event(ns, sub, l2, "userx", "none")))
+                for l2 in LANG_LIST:
+                    out.append((a, event(ns, sorted(NAMESPACES[ns]["deps"]), l2, "userx", "none")))
     return out
 
 
@@ -921,7 +920,7 @@ def run(ctx: Ctx) -> int:
     in_child(_verify_deps, lay)  # in a fork: the main interpreter must stay pristine (workers are forked from it)
     scratch = str(ctx.scratch)
 
-    # ---- enumerate histories (deterministic; quick = core + seed slice: 1/16 of depth 1, 1/64 of depth 2, 1/48 of the
+    # ---- enumerate histories (deterministic; quick = core + seed slice: 1/16 of depth 1, 1/96 of depth 2, 1/48 of the
     # generator-object histories - thinner than 1/16 to keep the quick tier within ~350 CPU seconds)
     d1: typing.Dict[str, typing.Tuple[dict, bool]] = {}
     d1_space = 0
@@ -941,7 +940,7 @@ def run(ctx: Ctx) -> int:
                     continue
                 e = dict(b, reuse=reuse)
                 d2_space += 1
-                if ctx.thorough or _core2(a, b) or ctx.in_slice("d2|" + ev_id(a) + ">" + ev_id(e), 64):
+                if ctx.thorough or _core2(a, b) or ctx.in_slice("d2|" + ev_id(a) + ">" + ev_id(e), 96):
                     deep.setdefault("2|" + ev_id(a), ([a], []))[1].append(e)
     d3_space = 0
     if ctx.thorough:
